@@ -6,10 +6,11 @@ package main
 //    or: "assign ; p low high err ; ..."
 
 import (
-	"errors"
 	"encoding/hex"
 	"encoding/json"
+	"errors"
 	"fmt"
+	"runtime"
 	"sort"
 	"strconv"
 	"strings"
@@ -17,6 +18,8 @@ import (
 
 	"github.com/confluentinc/confluent-kafka-go/kafka"
 
+	"github.com/digitalocean/firebolt/executor"
+	"github.com/digitalocean/firebolt/fbcontext"
 	"github.com/digitalocean/firebolt/message"
 	"github.com/digitalocean/firebolt/node/kafkaproducer"
 )
@@ -52,7 +55,7 @@ func unhx(s string) []byte {
 	return b
 }
 
-var strPool = []string{"a", "b", "recoveryrequest", "t", "k1", "k2", "0", "", "héllo", "日本", " ", "a\"b", "<&>", "x\\y", "😀", "a b", "\n", 
+var strPool = []string{"a", "b", "recoveryrequest", "t", "k1", "k2", "0", "", "héllo", "日本", " ", "a\"b", "<&>", "x\\y", "😀", "a b", "\n",
 	"\x00", "a\x07b", "\x0b\x7f", "\U000e0001", "\u2028x", "recovery", "request7", // control characters, non-printable runes, strings whose concatenations coincide
 	"a-b", "-", "t-"}
 
@@ -127,7 +130,12 @@ func genReceiver(r *rng, n int, tier string, emit func(string)) {
 				}
 				ops = append(ops, fmt.Sprintf("send %s %s %s", t, k, hx(pl)))
 			case x < 58:
-				ops = append(ops, fmt.Sprintf("ack %s %s -", t, k))
+				// an acknowledgement carries the payload of what is acknowledged, or none
+				ap := "-"
+				if r.chance(50) {
+					ap = hx([]byte{byte(j), 0xac})
+				}
+				ops = append(ops, fmt.Sprintf("ack %s %s %s", t, k, ap))
 			case x < 65:
 				// records of other instances, with clocks that disagree (past, far past, future)
 				ops = append(ops, fmt.Sprintf("%s %s %s %s %d", r.pickS("rsend", "rsend", "rack"), t, k, hx([]byte{byte(j), 7}), r.pick(0, -5, -100000, 100000, 3600, -1, 400000000)))
@@ -138,7 +146,11 @@ func genReceiver(r *rng, n int, tier string, emit func(string)) {
 					ops = append(ops, fmt.Sprintf("rnopl %s %s %s", t, k, b01(r.chance(40))))
 				}
 			case x < 72:
-				ops = append(ops, fmt.Sprintf("bad %d", r.intn(5)))
+				if r.chance(40) {
+					ops = append(ops, fmt.Sprintf("bad 5 %s %s", t, k))
+				} else {
+					ops = append(ops, fmt.Sprintf("bad %d", r.intn(5)))
+				}
 			case x < 72+eofBias:
 				ops = append(ops, fmt.Sprintf("eof %d", r.intn(np)))
 			case x < 98:
@@ -199,8 +211,15 @@ func execReceiver(input string) string {
 		sp.ch = make(chan *kafka.Message, 1)
 		collected := make(chan *kafka.Message, 8192)
 		go func(in chan *kafka.Message) {
+			n := 0
 			for m := range in {
-				time.Sleep(50 * time.Microsecond)
+				// a slow client: it yields before taking each record and pauses now and then (a sleep per record would make
+				// the long histories of the thorough tier take an hour)
+				runtime.Gosched()
+				if n%16 == 0 {
+					time.Sleep(50 * time.Microsecond)
+				}
+				n++
 				collected <- m
 			}
 		}(sp.ch)
@@ -283,7 +302,17 @@ func execReceiver(input string) string {
 				msg := message.Message{MessageType: string(unhx(g[1])), Key: string(unhx(g[2])), Payload: unhx(g[3])}
 				var err error
 				sender := senders[(j+len(g[1]))%2]
-				if g[0] == "send" {
+				if (j+len(g[2]))%3 == 0 {
+					// sent / acknowledged by a node: through the functions the node's context is configured with, which use
+					// the process-wide sender
+					message.VerifSetSender(sender)
+					cm := fbcontext.Message{MessageType: msg.MessageType, Key: msg.Key, Payload: msg.Payload}
+					if g[0] == "send" {
+						err = executor.VerifNodeSendMessage(cm)
+					} else {
+						err = executor.VerifNodeAckMessage(cm)
+					}
+				} else if g[0] == "send" {
 					err = sender.Send(msg)
 				} else {
 					err = sender.Ack(msg)
@@ -353,6 +382,15 @@ func execReceiver(input string) string {
 				v = []byte{}
 			case "3":
 				v = []byte(`[1,2]`)
+			case "5":
+				// the wire layout of a real record, but with an 'updated' that is not a timestamp: undecodable as a whole
+				ty, ky := "t", "k"
+				if len(f) >= 4 {
+					ty, ky = string(unhx(f[2])), string(unhx(f[3]))
+				}
+				tj, _ := json.Marshal(ty)
+				kj, _ := json.Marshal(ky)
+				v = []byte(fmt.Sprintf(`{"message":{"messagetype":%s,"key":%s,"payload":"AQ=="},"updated":"yesterday","ack":%v}`, tj, kj, len(ky)%2 == 0))
 			default:
 				v = []byte(`{"message":{"messagetype":"t","key":"k","payload":"!!notbase64"},"ack":false}`)
 			}
